@@ -334,6 +334,32 @@ def implicit_contract(env, factory, setup_model=None, pre=None, requires=None):
             for n in h.out_names:
                 env.eq("C02", "S-nl residual at the solve_nonlinear result is the solved system (R(x) == A x - b) [%s]" % n,
                        np.asarray(r[n], dtype=object).reshape(-1), lhs)
+        # a live instance that solved and linearised at another point first: the solve at the current point factorises the
+        # current matrix (no factorisation remembered under a key that does not determine the matrix)
+        if nsolve == 1:
+            hS = env.comp("live.solve", factory, setup_model)
+            if pre:
+                pre(env, hS)
+            insQ = hS.inputs(tag="P.")
+            if requires is not None:
+                insQ = requires(env, hS, insQ)
+            fresh_rec = spshim.SOLVES[0]
+
+            def revisit():
+                xq = hS.solve_nonlinear(insQ)
+                hS.linearize(insQ, xq)
+                del spshim.SOLVES[:]
+                hS.solve_nonlinear(ins)
+                return list(spshim.SOLVES)
+            for path, sol in env.explore(revisit):
+                tag = (" @path(%s)" % ";".join("%s=%s" % (_short(c), "T" if b else "F") for c, b in path)) if path else ""
+                env.holds("C02,C03", "S-nl after a visit to another point: one factorised solve%s" % tag, len(sol) == 1, "%d solves" % len(sol))
+                if len(sol) == 1:
+                    env.eq("C02,C03,C05,C07,C10", "S-nl after a visit to another point the factorised matrix is that of the current point%s" % tag,
+                           sol[0]["A"], fresh_rec["A"])
+                    env.eq("C02,C03,C05,C07,C10", "S-nl after a visit to another point the right-hand side is the current one%s" % tag,
+                           np.asarray(sol[0]["b"], dtype=object).reshape(-1), np.asarray(fresh_rec["b"], dtype=object).reshape(-1))
+            del spshim.SOLVES[:]
         # solve_linear after linearize at (ins, x): both modes
         h.linearize(ins, x)
         Juu = {(of, wrt): h.true_jac_res(ins, x, r, of, wrt) for of in h.out_names for wrt in h.out_names}
@@ -370,6 +396,18 @@ def implicit_contract(env, factory, setup_model=None, pre=None, requires=None):
         for n in h.out_names:
             env.eq("C02", "S-nl residual at the solve_nonlinear result is the solved system (R(x) == A x - b) [%s]" % n,
                    np.asarray(r[n]).reshape(-1), 0 * np.asarray(r[n]).reshape(-1))
+        hS = env.comp("live.solve", factory, setup_model)
+        insQ = hS.inputs(tag="P.")
+        if requires is not None:
+            insQ = requires(env, hS, insQ)
+        xq = hS.solve_nonlinear(insQ)
+        hS.linearize(insQ, xq)
+        x2 = hS.solve_nonlinear(ins)
+        r2 = h.residual(ins, x2)
+        sc = max(float(np.max(np.abs(np.asarray(ins[k], dtype=float)))) for k in h.in_names)
+        for n in h.out_names:
+            env.eq("C02,C03,C05,C07,C10", "S-nl after a visit to another point the factorised matrix is that of the current point",
+                   np.asarray(r2[n]).reshape(-1) / sc, 0 * np.asarray(r2[n]).reshape(-1))
     return h
 
 
